@@ -25,6 +25,7 @@ const (
 	corrEvery = "C04Next.every: model everyNext/everyDelay = ConstantDelaySchedule.Next/Every"
 
 	callDeadline     = 2 * time.Second
+	slowDeadline     = 120 * time.Second
 	maxGroupTimeouts = 3
 	maxTable         = 40
 
@@ -266,6 +267,8 @@ type item struct {
 	line    string
 	model   string
 	asked   bool
+	slow    bool          // empty-set probe: the real call may legitimately take seconds
+	dur     time.Duration // wall time of the real call (slow items)
 	// composed path: model Parse then model Next on the spec text (parser-derived cases only)
 	line2  string
 	model2 string
@@ -277,6 +280,7 @@ const (
 	gDST
 	gEvery
 	gProbe
+	gEmpty // schedules with an empty set: Next runs into the five-year limit
 )
 
 type group struct {
@@ -298,6 +302,8 @@ type group struct {
 	notes    []string
 	drvErr   string
 	pregen   bool // items are given (replay)
+
+	emptyFields []string // gEmpty: which set is empty in each case
 }
 
 // ---- the real calls ----
@@ -307,8 +313,14 @@ type callRes struct {
 	pan string
 }
 
+var slowCalls, slowestCall atomic.Int64
+
 // callNext runs the real Next under recover and a deadline.
 func callNext(s *cron.SpecSchedule, t time.Time) (got time.Time, impl string) {
+	return callNextWithin(s, t, callDeadline)
+}
+
+func callNextWithin(s *cron.SpecSchedule, t time.Time, deadline time.Duration) (got time.Time, impl string) {
 	ch := make(chan callRes, 1)
 	go func() {
 		defer func() {
@@ -318,7 +330,7 @@ func callNext(s *cron.SpecSchedule, t time.Time) (got time.Time, impl string) {
 		}()
 		ch <- callRes{t: s.Next(t)}
 	}()
-	timer := time.NewTimer(callDeadline)
+	timer := time.NewTimer(deadline)
 	defer timer.Stop()
 	select {
 	case r := <-ch:
@@ -362,6 +374,36 @@ func (g *group) hazard(t, want time.Time, ok bool) bool {
 	return false
 }
 
+// pathClass is the worst class among the table's transitions from 49 h before the earliest to
+// 49 h after the latest of the given instants.
+func (g *group) pathClass(instants ...time.Time) string {
+	var lo, hi int64
+	first := true
+	for _, x := range instants {
+		if x.IsZero() {
+			continue
+		}
+		u := x.Unix()
+		if first || u < lo {
+			lo = u
+		}
+		if first || u > hi {
+			hi = u
+		}
+		first = false
+	}
+	best := "none"
+	for _, tr := range tableTransitions(g.table) {
+		if tr.at < lo-int64(classRadius/time.Second) || tr.at > hi+int64(classRadius/time.Second) {
+			continue
+		}
+		if c := classOf(tr); classRank(c) > classRank(best) {
+			best = c
+		}
+	}
+	return best
+}
+
 func (it *item) schedule(loc *time.Location) *cron.SpecSchedule {
 	l := loc
 	switch {
@@ -389,7 +431,25 @@ func (g *group) runNext(it *item, timeouts *int) {
 		it.skipped = "dayskip-hazard"
 		return
 	}
-	it.got, it.impl = callNext(it.schedule(g.loc), it.t)
+	if it.slow {
+		st := time.Now()
+		it.got, it.impl = callNextWithin(it.schedule(g.loc), it.t, slowDeadline)
+		it.dur = time.Since(st)
+	} else {
+		it.got, it.impl = callNext(it.schedule(g.loc), it.t)
+		if it.impl == "timeout" {
+			// slow is not hung (zone lookups past 2037 evaluate the TZ rule string on every call;
+			// the machine may be loaded): only a call that also exceeds the long deadline is a hang
+			st := time.Now()
+			it.got, it.impl = callNextWithin(it.schedule(g.loc), it.t, slowDeadline)
+			if it.impl != "timeout" {
+				slowCalls.Add(1)
+				if d := time.Since(st); d > time.Duration(slowestCall.Load()) {
+					slowestCall.Store(int64(d))
+				}
+			}
+		}
+	}
 	var id, what string
 	switch {
 	case it.impl == "timeout":
@@ -409,6 +469,17 @@ func (g *group) runNext(it *item, timeouts *int) {
 		}
 		if !it.got.IsZero() && it.got.Nanosecond() != 0 {
 			it.vids = append(it.vids, [2]string{"result-not-whole-second", "Next returned " + it.got.Format(time.RFC3339Nano)})
+		}
+	}
+	if id != "" && it.class == "none" {
+		// no transition within 49 h of the three instants: classify by the transitions the search
+		// passed between the start and the later of answer / expected answer
+		if c := g.pathClass(it.t, it.got, it.want); c != "none" {
+			mech := id
+			if id == "missed-earlier-match" {
+				mech = "shift-missed"
+			}
+			it.class, id = c, findingID(c, mech)
 		}
 	}
 	if id != "" {
@@ -575,7 +646,15 @@ func runAll(groups []*group, pool chan *lib.Drv, workers int) {
 		}()
 	}
 	var probes []*group
+	for _, g := range groups { // the slow empty-set probes start first so they overlap with the rest
+		if g.kind == gEmpty {
+			ch <- g
+		}
+	}
 	for _, g := range groups {
+		if g.kind == gEmpty {
+			continue
+		}
 		if g.kind == gProbe {
 			probes = append(probes, g)
 			continue
@@ -763,6 +842,28 @@ func (g *group) generate() {
 			if i%3 == 0 {
 				g.items = append(g.items, &item{kind: "everyd", delay: delay()})
 			}
+		}
+	case gEmpty:
+		// An empty second/minute/hour/month set (the parser accepts ","), or both day sets empty:
+		// nothing ever matches, Next iterates up to the five-year limit. Measured, and tied.
+		all := func(fd fieldDef) uint64 { return field{star()}.bits(fd) }
+		full := Sched{all(fdSec), all(fdMin), all(fdHour), all(fdDom), all(fdMonth), all(fdDow)}
+		t := time.Date(2021, 3, 4, 5, 6, 7, 0, g.loc)
+		for _, f := range g.emptyFields {
+			s := full
+			switch f {
+			case "second":
+				s.Second = 0
+			case "minute":
+				s.Minute = 0
+			case "hour":
+				s.Hour = 0
+			case "month":
+				s.Month = 0
+			case "days":
+				s.Dom, s.Dow = 0, 0
+			}
+			g.items = append(g.items, &item{kind: "next", sp: spec{s: s, text: "empty " + f}, t: t, tLoc: g.zone, probe: true, slow: true})
 		}
 	case gProbe:
 		// Pacific/Apia skipped 2011-12-30 entirely; the day loop of Next cannot get past 12-29.
